@@ -30,12 +30,12 @@ type c03Event struct {
 }
 
 type c03Case struct {
-	Cmd     string     `json:"command"`
-	Spec    gram.Spec  `json:"spec"`
-	VPN     bool       `json:"vpn"`
-	Events  []c03Event `json:"traffic"`
-	Seed    int64      `json:"rand_seed"`
-	ExitMs  int        `json:"exit_delay_ms"`
+	Cmd    string     `json:"command"`
+	Spec   gram.Spec  `json:"spec"`
+	VPN    bool       `json:"vpn"`
+	Events []c03Event `json:"traffic"`
+	Seed   int64      `json:"rand_seed"`
+	ExitMs int        `json:"exit_delay_ms"`
 }
 
 func scanKind(cmd string) string {
